@@ -161,6 +161,14 @@ func absRat(r *big.Rat) *big.Rat { return new(big.Rat).Abs(r) }
 // every distinct report that involves the repository's packages into a violation; a report that involves the
 // harness only is a harness error. Reports are de-duplicated by their outermost frames, line numbers stripped.
 func raceReports(c *core.Ctx, where string) {
+	raceLogs(c, where)
+	if !raceEnabled {
+		c.Inconclusive("race-detector", "harness was not built with -race")
+	}
+}
+
+// raceLogs: the part of raceReports that reads the logs (also those written by a race-detector build of the program).
+func raceLogs(c *core.Ctx, where string) {
 	files, _ := filepath.Glob(filepath.Join(c.Work, "race.*"))
 	reports := 0
 	seen := map[string]bool{}
@@ -188,7 +196,4 @@ func raceReports(c *core.Ctx, where string) {
 	}
 	c.Count("race_reports", reports)
 	c.Count("race_log_files", len(files))
-	if !raceEnabled {
-		c.Inconclusive("race-detector", "harness was not built with -race")
-	}
 }
